@@ -59,7 +59,7 @@ def runPipeCase (c : Case) : List String :=
 def runCase (c : Case) : List String :=
   match c.suite with
   | "pipe" => runPipeCase c
-  | "time" => runTimeCase c.id ((c.field "pipe").headD (.atom "")) c.events
+  | "time" => runTimeCase c.id ((c.field "pipe").headD (.atom "")) c.events !(c.field "fb").isEmpty
   | "subject" => runSubjectCase c.id c.events
   | "behavior" => runBehaviorCase c.id (c.field "init") c.events
   | "groupby" => runGroupByCase c.id c.field c.events
